@@ -35,6 +35,13 @@ matches is an oracle (`Pat.ms`); the COMBINATION is `globs`.
   `C05_counterexample_basename_historical`: what the same history did when the name was
   `filepath.Base` (a non-injective name table) — kept as a record, NOT true of the tree any more;
   `C05_detect_full_needs_injective_names`: why `NamesInj` is a hypothesis.
+* `C05_ignored_failure_ok` (F8C) — a failure swallowed by `ignore_error` keeps the fingerprint, so
+  `C05_idem` applies to such runs; `C05_match_independent` (F8E) — whether a path is a source does not
+  depend on other files (`C05_unmatched_field_fixed`: `{a,b}.e` with `b.e` absent).
+* Method timestamp detects a source strictly newer than the newest generates / marker
+  (`C05_detect_timestamp_partial`) and NOTHING else: `C05_detect_timestamp_full` is false —
+  `C05_timestamp_removal_undetected`, `_rename_undetected`, `_old_addition_undetected`,
+  `_restored_mtime_undetected` (open finding `C05-timestamp-misses-non-mtime-changes`).
 * `C05_mtime` — checksum does not look at mtimes; timestamp does.
 * `C05_missing_generates_timestamp_fixed` — the former witness of `C05-timestamp-missing-generates`
   (method timestamp did not notice a deleted `generates` file once its marker existed) is rebuilt.
@@ -728,6 +735,78 @@ theorem C05_timestamp_newer_reruns (t : Task) (dry : Bool) (now : Nat) (s : Stat
     (tsCheck t dry now s).2 = false := by
   rw [tsCheck_result]
   exact tsUp_false_of_newer t s p hp hnew hpos
+
+/-! ### what method timestamp does NOT detect (open finding `C05-timestamp-misses-non-mtime-changes`) -/
+
+/- two sources (paths 0, 1), method timestamp, marker from a first run at 10 -/
+private def tTs2 : Task := { tMv with method := .timestamp }
+private def prTs2 : Proj := { prMv with tasks := [tTs2] }
+private def sTs2 : State := { State.empty with files := [(0, ⟨[7], 5⟩), (1, ⟨[8], 6⟩)] }
+
+/-- the detection clause of C05 for method timestamp, as the property states it: after a successful
+run, ANY change of the list of (path, content) of the matched files makes the next run execute -/
+def C05_detect_timestamp_full : Prop :=
+  ∀ (pr : Proj) (i : Nat) (t : Task), pr.tasks[i]? = some t → t.method = .timestamp → ∀ (s s' : State) (e : Env),
+    (invoke Cfg.fixed hId pr i .run e s).2.exit = .ok → s'.marks = (invoke Cfg.fixed hId pr i .run e s).1.marks →
+    (srcsNow t s'.files).map (fun p => (p, contentOf s'.files p)) ≠
+      (srcsNow t (invoke Cfg.fixed hId pr i .run e s).1.files).map (fun p => (p, contentOf (invoke Cfg.fixed hId pr i .run e s).1.files p)) →
+    ∀ e', (invoke Cfg.fixed hId pr i .run e' s').2.skipped = false
+
+/-- **REMOVAL** of a source is not noticed: the remaining files are as old as before -/
+theorem C05_timestamp_removal_undetected :
+    let s1 := (invoke Cfg.fixed hId prTs2 0 .run (env 10) sTs2).1
+    (invoke Cfg.fixed hId prTs2 0 .run (env 10) sTs2).2.ran = [0] ∧ srcsNow tTs2 s1.files = [0, 1] ∧
+    srcsNow tTs2 (applyOp prTs2 (.delete 1) s1).files = [0] ∧
+    (invoke Cfg.fixed hId prTs2 0 .run (env 20) (applyOp prTs2 (.delete 1) s1)).2.skipped = true := by decide
+
+/-- a **RENAME** (`mv`: content and mtime kept) is not noticed -/
+theorem C05_timestamp_rename_undetected :
+    let s0 : State := { State.empty with files := [(0, ⟨[7], 5⟩)] }
+    let s1 := (invoke Cfg.fixed hId prTs2 0 .run (env 10) s0).1
+    srcsNow tTs2 s1.files = [0] ∧ srcsNow tTs2 (applyOp prTs2 (.move 0 1) s1).files = [1] ∧
+    (invoke Cfg.fixed hId prTs2 0 .run (env 20) (applyOp prTs2 (.move 0 1) s1)).2.skipped = true := by decide
+
+/-- an **ADDITION with an old mtime** (a file copied in with its timestamps, unpacked from an archive) is
+not noticed -/
+theorem C05_timestamp_old_addition_undetected :
+    let s0 : State := { State.empty with files := [(0, ⟨[7], 5⟩)] }
+    let s1 := (invoke Cfg.fixed hId prTs2 0 .run (env 10) s0).1
+    srcsNow tTs2 (applyOp prTs2 (.write 1 [9] 3) s1).files = [0, 1] ∧
+    (invoke Cfg.fixed hId prTs2 0 .run (env 20) (applyOp prTs2 (.write 1 [9] 3) s1)).2.skipped = true := by decide
+
+/-- an **EDIT with the mtime restored** is not noticed -/
+theorem C05_timestamp_restored_mtime_undetected :
+    let s1 := (invoke Cfg.fixed hId prTs2 0 .run (env 10) sTs2).1
+    contentOf (applyOp prTs2 (.write 0 [9, 9] 5) s1).files 0 ≠ contentOf s1.files 0 ∧
+    (invoke Cfg.fixed hId prTs2 0 .run (env 20) (applyOp prTs2 (.write 0 [9, 9] 5) s1)).2.skipped = true := by decide
+
+theorem C05_detect_timestamp_full_false : ¬ C05_detect_timestamp_full := by
+  intro h
+  have := h prTs2 0 tTs2 rfl rfl sTs2 (applyOp prTs2 (.delete 1) (invoke Cfg.fixed hId prTs2 0 .run (env 10) sTs2).1) (env 10)
+    (by decide) (by decide) (by decide) (env 20)
+  revert this
+  decide
+
+/-- **Partial (what method timestamp DOES detect)**: a matched source that is strictly newer than the
+newest existing `generates` file and the marker makes the check fail — hence, for a calm run, every
+command runs (`C05_timestamp_newer_reruns` is the check-level statement). -/
+theorem C05_detect_timestamp_partial (cfg : Cfg) (H : Hashes) (pr : Proj) {i : Nat} {t : Task} (ht : pr.tasks[i]? = some t)
+    (hts : Ts t) (e : Env) (s : State) (p : Path) (hp : p ∈ srcsNow t s.files)
+    (hnew : ∀ m ∈ tsGts t s, m < mtimeOf s.files p) (hpos : 0 < mtimeOf s.files p) :
+    (invoke cfg H pr i .run e s).2.skipped = false ∧
+    (Calm t e → (invoke cfg H pr i .run e s).2.ran = List.range' 0 t.cmds.length) := by
+  apply run_not_upToDate cfg H pr ht
+  rw [isUpToDate_ts H pr hts]
+  have : tsUp t s = false := tsUp_false_of_newer t s p hp hnew hpos
+  simp only [this]
+  cases t.status.isEmpty <;> simp
+
+/-- non-vacuity of `C05_detect_timestamp_partial`: after the run at 10 a source written with mtime 15 -/
+example :
+    let s1 := applyOp prTs2 (.write 0 [9] 15) (invoke Cfg.fixed hId prTs2 0 .run (env 10) sTs2).1
+    Ts tTs2 ∧ (0 : Path) ∈ srcsNow tTs2 s1.files ∧ (∀ m ∈ tsGts tTs2 s1, m < mtimeOf s1.files 0) ∧
+    (invoke Cfg.fixed hId prTs2 0 .run (env 20) s1).2.ran = [0] := by
+  refine ⟨⟨rfl, rfl⟩, by decide, by decide, by decide⟩
 
 /-- **the former witness of `C05-timestamp-missing-generates`, now rebuilt** (TS1): run, delete the
 generates file, run again — the second run is not skipped and executes the command (an instance of
